@@ -44,7 +44,8 @@ def lane_teardown(n):
     sh("git -C /repo worktree prune")
 
 def lane_env(d):
-    return dict(ENV, RSV_REPO=f"{d}/repo", RSV_VERIF_DIR=f"{d}/verif")
+    e = dict(ENV, RSV_REPO=f"{d}/repo", RSV_VERIF_DIR=f"{d}/verif")
+    return e
 
 def apply_mutant(d, m):
     repo = f"{d}/repo"
